@@ -19,11 +19,40 @@ class SimRemoteFS(MemoryFileSystem):
     protocol = "simremote"
     PARAM_CHECKSUM = "md5"
 
-    def __init__(self, name, seam, **kwargs):
+    def __init__(self, name, seam, backing=None, **kwargs):
         super().__init__(global_store=False, **kwargs)
         self.sim_name = name
         self.seam = seam
         self.stats = {"put": 0, "get": 0}
+        # optional durable backing directory (outside the world, written with
+        # the real os functions, atomically): lets the remote survive the
+        # death of the process that talks to it (E8)
+        self.backing = backing
+        if backing and os.path.isdir(backing):
+            for dirpath, _, files in os.walk(backing):
+                for fn in files:
+                    full = os.path.join(dirpath, fn)
+                    if fn.endswith(".part"):
+                        continue
+                    with REAL["open"](full, "rb") as f:
+                        self.fs.pipe_file("/" + os.path.relpath(full, backing), f.read())
+
+    def _persist(self, path, data):
+        if not self.backing:
+            return
+        full = os.path.join(self.backing, self.fs._strip_protocol(path).lstrip("/"))
+        d = os.path.dirname(full)
+        if not os.path.isdir(d):
+            os.makedirs(d, exist_ok=True)
+        if data is None:
+            try:
+                REAL["os.unlink"](full)
+            except FileNotFoundError:
+                pass
+            return
+        with REAL["open"](full + ".part", "wb") as f:
+            f.write(data)
+        REAL["os.rename"](full + ".part", full)
 
     def __eq__(self, other):
         return isinstance(other, SimRemoteFS) and self.fs.store is other.fs.store
@@ -40,6 +69,7 @@ class SimRemoteFS(MemoryFileSystem):
         if parent and not self.fs.exists(parent):
             self.fs.makedirs(parent, exist_ok=True)
         self.fs.pipe_file(to_info, data)
+        self._persist(to_info, data)
         self.stats["put"] += 1
         self.seam.after_mutation("r_put", f"<{self.sim_name}>{to_info}")
         self._pt("r_put_ack", to_info)
@@ -63,7 +93,9 @@ class SimRemoteFS(MemoryFileSystem):
         self._pt("r_put", to_info)
         data = self.fs.cat_file(from_info)
         self.fs.pipe_file(to_info, data)
+        self._persist(to_info, data)
         self.fs.rm_file(from_info)
+        self._persist(from_info, None)
         self.seam.after_mutation("r_put", f"<{self.sim_name}>{to_info}")
 
     def rm(self, path, recursive=False, **kwargs):
@@ -72,6 +104,7 @@ class SimRemoteFS(MemoryFileSystem):
             self._pt("r_rm", p)
             if self.fs.exists(p):
                 self.fs.rm(p, recursive=recursive)
+                self._persist(p, None)
 
     remove = rm
 
@@ -146,6 +179,8 @@ class SimRemoteFS(MemoryFileSystem):
 
     def raw_put(self, path, data):
         self.fs.pipe_file(path, data)
+        self._persist(path, data)
 
     def raw_rm(self, path):
         self.fs.store.pop(self.fs._strip_protocol(path), None)
+        self._persist(path, None)
